@@ -104,7 +104,7 @@ func JudgeHandoff(w *World) *Verdict {
 	}
 	live, gone, terminal, liveWithNeighbour := 0, 0, 0, 0
 	for ci, rec := range h.Cycles {
-		if rec.OpenErr != "" || rec.Panic != "" || rec.Hung || rec.After == nil {
+		if rec.OpenErr != "" || rec.Panic != "" || rec.Hung || rec.Starved || rec.After == nil {
 			continue
 		}
 		view := views[ci]
